@@ -97,7 +97,11 @@ def c03(**p):
     def body(c):
         mol = dom(c, p)
         n = mol.n
-        s = ser(canon(graph_of(mol.listing())))
+        g0 = graph_of(mol.listing())
+        if p.get("scramble"):
+            from harness.pipeline import scramble
+            g0 = scramble(c, g0)          # a description whose numbering differs from its listing order
+        s = ser(canon(g0))
         c.note("mol", mol.describe())
         c.note("tucan", s)
         g = lifted_graph_from_tucan(c, s)
